@@ -5,7 +5,7 @@
 (<base>/k/repo) and with its own copy of this tree (<base>/k/verif) whose harness is pointed at that
 worktree, pinned to its own share of the CPUs. Everything under <base> is removed at the end.
 
-usage: regress_parallel.py [--lanes N] [--tier quick|thorough] [--only REGEX] [--benign] [--no-seeds]
+usage: regress_parallel.py [--lanes N] [--tier quick|thorough] [--only REGEX] [--benign] [--no-seeds] [--props C05,C13]
 output (stdout), one line per (change, property):  <name> <property> CAUGHT|MISSED|ERROR <seconds>s
   seeds / mutants: the property of the change is checked; expected CAUGHT (M18a: MISSED, negative control)
   --benign: every benign patch is run through all twenty checks; expected MISSED (= no alarm) everywhere
@@ -34,7 +34,10 @@ only = opt("--only")
 benign = opt("--benign", flag=True)
 no_seeds = opt("--no-seeds", flag=True)
 base = opt("--base", "/tmp/vlane")
+props_only = opt("--props")  # comma-separated: restrict the benign runs to these checks
 ALL = ["C%02d" % i for i in range(1, 21)]
+if props_only:
+    ALL = [p for p in ALL if p in props_only.split(",")]
 
 items = []
 if not no_seeds:
